@@ -583,14 +583,14 @@ func (d *DistKeyGenerator) ProcessResponses(bundles []*ResponseBundle) (
 	jb *JustificationBundle,
 	err error) {
 
-	if !d.canReceive && d.state != DealPhase {
+	if !d.canReceive && d.state != DealPhase && d.state != ResponsePhase {
 		// if we are a old node that will leave
 		err = &PhaseError{
 			DealPhase,
 			d.state,
 		}
 		return nil, nil, err
-	} else if d.state != ResponsePhase {
+	} else if d.canReceive && d.state != ResponsePhase {
 		err = &PhaseError{
 			ResponsePhase,
 			d.state,
@@ -617,7 +617,7 @@ func (d *DistKeyGenerator) ProcessResponses(bundles []*ResponseBundle) (
 		if bundle == nil {
 			continue
 		}
-		if d.canIssue && bundle.ShareIndex == d.nidx {
+		if d.canIssue && d.canReceive && bundle.ShareIndex == d.nidx {
 			// just in case we don't treat our own response
 			continue
 		}
